@@ -427,6 +427,9 @@ def rule_quota(R):
     packets that no longer exist, and nothing gives those slots back (shared with C06 / C12)"""
     from .c06 import clause_inflight_read_after_reset
     clause_inflight_read_after_reset(R, "quota/inflight-read-after-reset")
+    # "accepts exactly the same requests (counts) as a brand-new one": the window is stored afresh by every handshake, from
+    # the CONNACK or the default, never from what an earlier connection left behind
+    roles.clause_negotiated_per_connection(R, "quota", ("send_quota", "max_send_quota"))
 
 
 def run(R):
